@@ -141,6 +141,13 @@ def handle(w):
         except ValueError:
             return 'E'
         return apply_ops(r, ops)
+    if cmd == 'T':
+        r = mk_range(*w[1:5]); ab, ops = w[5], w[6]
+        try:
+            r2 = TimeRange.parse(r) if ab == '-' else TimeRange.parse(r, absolute=(ab == '1'))
+        except ValueError:
+            return 'E'
+        return apply_ops(r2, ops)
     return '?'
 
 
